@@ -81,22 +81,44 @@ pub struct Window {
     pub until: Option<u8>,
 }
 impl Window {
-    pub const NONE: Window = Window { from: None, until: None };
+    pub const NONE: Window = Window {
+        from: None,
+        until: None,
+    };
     /// The windows the eligibility part uses; relative to EVAL_TIMES = g1,g3,g5:
     /// none | expired everywhere | not yet valid everywhere | starts exactly at g3 |
     /// ends exactly at g3 | [g1,g5) both boundaries | [g2,g4) strictly around g3.
     pub const ALL: [Window; 7] = [
         Window::NONE,
-        Window { from: None, until: Some(0) },
-        Window { from: Some(6), until: None },
-        Window { from: Some(3), until: None },
-        Window { from: None, until: Some(3) },
-        Window { from: Some(1), until: Some(5) },
-        Window { from: Some(2), until: Some(4) },
+        Window {
+            from: None,
+            until: Some(0),
+        },
+        Window {
+            from: Some(6),
+            until: None,
+        },
+        Window {
+            from: Some(3),
+            until: None,
+        },
+        Window {
+            from: None,
+            until: Some(3),
+        },
+        Window {
+            from: Some(1),
+            until: Some(5),
+        },
+        Window {
+            from: Some(2),
+            until: Some(4),
+        },
     ];
     /// Spec: no window means "always"; `from` is inclusive, `until` exclusive.
     pub fn contains(&self, at: usize) -> bool {
-        self.from.map(|f| (f as usize) <= at).unwrap_or(true) && self.until.map(|u| at < u as usize).unwrap_or(true)
+        self.from.map(|f| (f as usize) <= at).unwrap_or(true)
+            && self.until.map(|u| at < u as usize).unwrap_or(true)
     }
 }
 
@@ -127,14 +149,21 @@ impl Spec {
         }
     }
     pub fn short(&self) -> String {
-        let ev: String = (0..N_EVIDENCE).filter(|i| self.ev >> i & 1 == 1).map(|i| i.to_string()).collect();
+        let ev: String = (0..N_EVIDENCE)
+            .filter(|i| self.ev >> i & 1 == 1)
+            .map(|i| i.to_string())
+            .collect();
         let mut s = format!(
             "{}a{}{{{}}}{}{}",
             if self.rival { "v1:" } else { "" },
             self.actor,
             ev,
             self.stance.letter(),
-            if self.conf == 0 { "-".to_string() } else { format!(".{}", self.conf) }
+            if self.conf == 0 {
+                "-".to_string()
+            } else {
+                format!(".{}", self.conf)
+            }
         );
         if self.mode != Mode::Stated {
             s.push_str(&format!("/{}", self.mode.text()));
@@ -142,8 +171,14 @@ impl Spec {
         if self.window != Window::NONE {
             s.push_str(&format!(
                 "/[{},{})",
-                self.window.from.map(|x| format!("g{x}")).unwrap_or_default(),
-                self.window.until.map(|x| format!("g{x}")).unwrap_or_default()
+                self.window
+                    .from
+                    .map(|x| format!("g{x}"))
+                    .unwrap_or_default(),
+                self.window
+                    .until
+                    .map(|x| format!("g{x}"))
+                    .unwrap_or_default()
             ));
         }
         s
@@ -170,7 +205,13 @@ impl Case {
     pub fn of_specs(functional: bool, specs: &[Spec]) -> Case {
         Case {
             functional,
-            events: specs.iter().map(|s| Event::Assert { spec: *s, superseding: None }).collect(),
+            events: specs
+                .iter()
+                .map(|s| Event::Assert {
+                    spec: *s,
+                    superseding: None,
+                })
+                .collect(),
         }
     }
     pub fn specs(&self) -> Vec<Spec> {
@@ -187,12 +228,22 @@ impl Case {
             .events
             .iter()
             .map(|e| match e {
-                Event::Assert { spec, superseding: None } => spec.short(),
-                Event::Assert { spec, superseding: Some(o) } => format!("{} SUPERSEDING #{o}", spec.short()),
+                Event::Assert {
+                    spec,
+                    superseding: None,
+                } => spec.short(),
+                Event::Assert {
+                    spec,
+                    superseding: Some(o),
+                } => format!("{} SUPERSEDING #{o}", spec.short()),
                 Event::Retract { ordinal } => format!("RETRACT #{ordinal}"),
             })
             .collect();
-        format!("{}[{}]", if self.functional { "fval" } else { "pval" }, parts.join(", "))
+        format!(
+            "{}[{}]",
+            if self.functional { "fval" } else { "pval" },
+            parts.join(", ")
+        )
     }
 }
 
@@ -227,7 +278,13 @@ pub fn permutations<T: Clone + Ord>(sorted: &[T]) -> Vec<Vec<T>> {
 
 /// All multisets of size `n` over `letters` (as index vectors, non-decreasing).
 pub fn multisets(n_letters: usize, n: usize) -> Vec<Vec<usize>> {
-    fn rec(n_letters: usize, n: usize, start: usize, cur: &mut Vec<usize>, out: &mut Vec<Vec<usize>>) {
+    fn rec(
+        n_letters: usize,
+        n: usize,
+        start: usize,
+        cur: &mut Vec<usize>,
+        out: &mut Vec<Vec<usize>>,
+    ) {
         if cur.len() == n {
             out.push(cur.clone());
             return;
@@ -257,7 +314,14 @@ pub fn structures(n_actors: u8, ev_subsets: &[u8]) -> Vec<(u8, u8)> {
 /// Canonical representative of a structure multiset under renaming of actors
 /// and of evidence ids (the least image over all 3! x 3! renamings).
 pub fn canonical_structure(ms: &[(u8, u8)]) -> Vec<(u8, u8)> {
-    const PERMS: [[u8; 3]; 6] = [[0, 1, 2], [0, 2, 1], [1, 0, 2], [1, 2, 0], [2, 0, 1], [2, 1, 0]];
+    const PERMS: [[u8; 3]; 6] = [
+        [0, 1, 2],
+        [0, 2, 1],
+        [1, 0, 2],
+        [1, 2, 0],
+        [2, 0, 1],
+        [2, 1, 0],
+    ];
     let mut best: Option<Vec<(u8, u8)>> = None;
     for pa in PERMS {
         for pe in PERMS {
